@@ -295,7 +295,7 @@ struct PtrLane
     if (n == "urst") { if (!up_(d)) return false; u[d]->reset(); return true; }
     if (n == "urstn") { if (!up_(d)) return false; u[d]->reset(new Obj(&c, x)); return true; }
     if (n == "urel") { if (!up_(d) || !rix(x)) return false; delete raw[x - 8]; raw[x - 8] = u[d]->release(); return true; }
-    if (n == "uadopt") { if (!up_(d) || !rix(x)) return false; u[d]->reset(raw[x - 8]); raw[x - 8] = nullptr; return true; }
+    if (n == "uadopt") { if (!up_(d) || !rix(x)) return false; Obj *p = raw[x - 8]; raw[x - 8] = nullptr; u[d]->reset(p); return true; }
     if (n == "uswap") { if (!up_(d) || !up_(x)) return false; u[d]->swap(*u[x]); return true; }
     if (n == "udel") { if (!up_(d)) return false; u[d].reset(); return true; }
     if (n == "uval") { if (!up_(d)) return false; deref(*u[d], res); return true; }
